@@ -1,0 +1,493 @@
+//! Verification facade -- compiled only with `--cfg fe2o3_amqp_verif`.
+//!
+//! Thin `pub` wrappers around crate-private items so that an external harness crate can
+//! construct the state and call the real step functions. The wrappers only *call*; they
+//! contain no protocol logic of their own.
+
+#![allow(missing_docs, missing_debug_implementations, dead_code)]
+
+use std::{
+    future::Future,
+    sync::{
+        atomic::{AtomicUsize, Ordering},
+        Arc, OnceLock,
+    },
+};
+
+use fe2o3_amqp_types::{
+    definitions::Handle,
+    performatives::{Begin, Close, Disposition, End, Flow, Open, Transfer},
+    states::{ConnectionState, SessionState},
+};
+use futures_util::Sink;
+use tokio::sync::{mpsc, Notify};
+use tokio_util::codec::LengthDelimitedCodec;
+
+use crate::{
+    connection::{AllocSessionError, Connection, ConnectionStateError},
+    endpoint::{
+        self, Connection as _, InputHandle, LinkFlow, OutgoingChannel, OutputHandle, Session as _,
+    },
+    frames::amqp::{Frame, FrameEncoder},
+    link::{
+        role,
+        state::{LinkFlowState, LinkFlowStateInner},
+        SenderFlowState,
+    },
+    session::{
+        frame::{SessionFrame, SessionFrameBody, SessionOutgoingItem},
+        Session,
+    },
+    util::{Consume, Consumer, Produce, Producer},
+    Payload, SendBound,
+};
+
+/* ------------------------------ schedule point ----------------------------- */
+
+static SCHEDULE_HOOK: AtomicUsize = AtomicUsize::new(0);
+
+/// Install (or clear) the callback run by [`schedule_point`].
+pub fn set_schedule_hook(hook: Option<fn()>) {
+    SCHEDULE_HOOK.store(hook.map(|f| f as usize).unwrap_or(0), Ordering::SeqCst);
+}
+
+/// Called by the sender's credit wait between the failed credit check and the wait itself.
+pub fn schedule_point() {
+    let raw = SCHEDULE_HOOK.load(Ordering::SeqCst);
+    if raw != 0 {
+        // SAFETY: only `set_schedule_hook` stores into SCHEDULE_HOOK, and it stores a `fn()`
+        let f: fn() = unsafe { std::mem::transmute::<usize, fn()>(raw) };
+        f();
+    }
+}
+
+/* --------------------------------- link flow ------------------------------- */
+
+/// Plain copy of the link flow state
+#[derive(Debug, Clone, Copy, PartialEq, Eq)]
+pub struct VFlowInner {
+    pub initial_delivery_count: u32,
+    pub delivery_count: u32,
+    pub link_credit: u32,
+    pub available: u32,
+    pub drain: bool,
+}
+
+/// Plain copy of the link part of a flow frame
+#[derive(Debug, Clone, Copy, PartialEq, Eq)]
+pub struct VLinkFlow {
+    pub handle: u32,
+    pub delivery_count: Option<u32>,
+    pub link_credit: Option<u32>,
+    pub available: Option<u32>,
+    pub drain: bool,
+    pub echo: bool,
+}
+
+impl VLinkFlow {
+    fn into_real(self) -> LinkFlow {
+        LinkFlow {
+            handle: Handle(self.handle),
+            delivery_count: self.delivery_count,
+            link_credit: self.link_credit,
+            available: self.available,
+            drain: self.drain,
+            echo: self.echo,
+            properties: None,
+        }
+    }
+
+    fn from_real(f: LinkFlow) -> Self {
+        VLinkFlow {
+            handle: f.handle.0,
+            delivery_count: f.delivery_count,
+            link_credit: f.link_credit,
+            available: f.available,
+            drain: f.drain,
+            echo: f.echo,
+        }
+    }
+}
+
+fn inner(v: VFlowInner) -> LinkFlowStateInner {
+    LinkFlowStateInner {
+        initial_delivery_count: v.initial_delivery_count,
+        delivery_count: v.delivery_count,
+        link_credit: v.link_credit,
+        available: v.available,
+        drain: v.drain,
+        properties: None,
+    }
+}
+
+fn snapshot<R>(s: &LinkFlowState<R>) -> VFlowInner {
+    let g = s.lock.read();
+    VFlowInner {
+        initial_delivery_count: g.initial_delivery_count,
+        delivery_count: g.delivery_count,
+        link_credit: g.link_credit,
+        available: g.available,
+        drain: g.drain,
+    }
+}
+
+pub struct VSenderFlow(Arc<LinkFlowState<role::SenderMarker>>);
+
+impl VSenderFlow {
+    pub fn new(v: VFlowInner) -> Self {
+        Self(Arc::new(LinkFlowState::sender(inner(v))))
+    }
+    pub fn snapshot(&self) -> VFlowInner {
+        snapshot(&self.0)
+    }
+    pub fn on_incoming_flow(&self, flow: VLinkFlow, output_handle: u32) -> Option<VLinkFlow> {
+        self.0
+            .on_incoming_flow(flow.into_real(), OutputHandle(output_handle))
+            .map(VLinkFlow::from_real)
+    }
+    /// the `Consumer` (sender side, waits for credit) and `Producer` (session side, applies flows)
+    pub fn split(&self, notify: Arc<Notify>) -> (VCreditConsumer, VCreditProducer) {
+        let consumer: SenderFlowState = Consumer::new(notify, self.0.clone());
+        let producer = consumer.producer();
+        (VCreditConsumer(consumer), VCreditProducer(producer))
+    }
+}
+
+pub struct VCreditConsumer(SenderFlowState);
+
+impl VCreditConsumer {
+    /// `Consume::consume` of the sender flow state: takes `count` credit, waiting if necessary
+    pub fn consume(&self, count: u32) -> impl Future<Output = [u8; 4]> + '_ {
+        Consume::consume(&self.0, count)
+    }
+    #[cfg(feature = "transaction")]
+    pub fn try_consume(&self, count: u32) -> Option<[u8; 4]> {
+        crate::util::TryConsume::try_consume(&self.0, count).ok()
+    }
+}
+
+pub struct VCreditProducer(Producer<Arc<LinkFlowState<role::SenderMarker>>>);
+
+impl VCreditProducer {
+    /// `Produce::produce`: apply an incoming flow and notify the waiter
+    pub fn produce(
+        &mut self,
+        flow: VLinkFlow,
+        output_handle: u32,
+    ) -> impl Future<Output = Option<VLinkFlow>> + '_ {
+        let item = (flow.into_real(), OutputHandle(output_handle));
+        async move { self.0.produce(item).await.map(VLinkFlow::from_real) }
+    }
+}
+
+pub struct VReceiverFlow(Arc<LinkFlowState<role::ReceiverMarker>>);
+
+impl VReceiverFlow {
+    pub fn new(v: VFlowInner) -> Self {
+        Self(Arc::new(LinkFlowState::receiver(inner(v))))
+    }
+    pub fn snapshot(&self) -> VFlowInner {
+        snapshot(&self.0)
+    }
+    pub fn on_incoming_flow(&self, flow: VLinkFlow, output_handle: u32) -> Option<VLinkFlow> {
+        self.0
+            .on_incoming_flow(flow.into_real(), OutputHandle(output_handle))
+            .map(VLinkFlow::from_real)
+    }
+    /// `Ok` = credit consumed, `Err` = transfer limit exceeded
+    pub fn consume(&self, count: u32) -> Result<(), ()> {
+        self.0.consume(count).map_err(|_| ())
+    }
+    pub fn as_link_flow(&self, output_handle: u32, echo: bool) -> VLinkFlow {
+        VLinkFlow::from_real(self.0.lock.read().as_link_flow(
+            OutputHandle(output_handle),
+            echo,
+            false,
+        ))
+    }
+}
+
+/* ---------------------------------- frames --------------------------------- */
+
+pub fn frame_encoder(max_frame_size: usize) -> FrameEncoder {
+    FrameEncoder::new(max_frame_size)
+}
+
+pub fn length_delimited_encoder(max_frame_size: usize) -> LengthDelimitedCodec {
+    crate::transport::verif_length_delimited_encoder(max_frame_size)
+}
+
+pub fn length_delimited_decoder(max_frame_size: usize) -> LengthDelimitedCodec {
+    crate::transport::verif_length_delimited_decoder(max_frame_size)
+}
+
+/* ------------------------------- reassembly -------------------------------- */
+
+pub struct VIncompleteTransfer(crate::link::VerifIncompleteTransfer);
+
+impl VIncompleteTransfer {
+    pub fn new(transfer: Transfer, partial_payload: Payload) -> Self {
+        Self(crate::link::VerifIncompleteTransfer::new(
+            transfer,
+            partial_payload,
+        ))
+    }
+    /// `Ok` or `Err` = inconsistent field in multi-frame delivery
+    pub fn or_assign(&mut self, other: Transfer) -> Result<(), ()> {
+        self.0.or_assign(other).map_err(|_| ())
+    }
+    pub fn append(&mut self, other: Payload) {
+        self.0.append(other)
+    }
+    pub fn performative(&self) -> &Transfer {
+        &self.0.performative
+    }
+    pub fn buffer(&self) -> &[Payload] {
+        &self.0.buffer
+    }
+    /// the reader the receiver decodes the complete message from
+    pub fn into_reader(self) -> impl std::io::Read {
+        VByteReader::new(self.0.buffer)
+    }
+}
+
+/// `Vec<Payload>::into_reader()` minus the `IoReader` wrapper: the chained-buffer `io::Read`
+pub struct VByteReader(crate::util::ByteReader<Payload>);
+
+impl VByteReader {
+    pub fn new(chunks: Vec<Payload>) -> Self {
+        Self(crate::util::ByteReader::verif_new(chunks))
+    }
+}
+
+impl std::io::Read for VByteReader {
+    fn read(&mut self, dst: &mut [u8]) -> std::io::Result<usize> {
+        self.0.read(dst)
+    }
+}
+
+/* -------------------------------- connection ------------------------------- */
+
+pub struct VConnection {
+    pub inner: Connection,
+    // keeps the receiving ends of allocated sessions alive
+    rxs: Vec<mpsc::Receiver<crate::session::frame::SessionIncomingItem>>,
+}
+
+impl VConnection {
+    pub fn new(local_state: ConnectionState, local_open: Open) -> Self {
+        Self {
+            inner: Connection::new(local_state, local_open),
+            rxs: Vec::new(),
+        }
+    }
+    pub fn local_state(&self) -> &ConnectionState {
+        &self.inner.local_state
+    }
+    pub fn set_local_state(&mut self, s: ConnectionState) {
+        self.inner.local_state = s;
+    }
+    pub fn agreed_channel_max(&self) -> u16 {
+        self.inner.agreed_channel_max
+    }
+    pub fn set_agreed_channel_max(&mut self, v: u16) {
+        self.inner.agreed_channel_max = v;
+    }
+    pub fn channel_in_use(&self, channel: u16) -> bool {
+        self.inner
+            .session_by_outgoing_channel
+            .contains(channel as usize)
+    }
+    pub fn sessions(&self) -> usize {
+        self.inner.session_by_outgoing_channel.len()
+    }
+    /// `endpoint::Connection::allocate_session`; `Err(true)` = channel-max reached
+    pub fn allocate_session(&mut self) -> Result<u16, AllocSessionError> {
+        let (tx, rx) = mpsc::channel(1);
+        let r = self.inner.allocate_session(tx).map(|c| c.0);
+        if r.is_ok() {
+            self.rxs.push(rx);
+        }
+        r
+    }
+    pub fn deallocate_session(&mut self, channel: u16) {
+        self.inner.deallocate_session(OutgoingChannel(channel))
+    }
+    pub fn on_incoming_open(&mut self, open: Open) -> Result<(), ConnectionStateError> {
+        self.inner
+            .on_incoming_open(endpoint::IncomingChannel(0), open)
+    }
+    pub fn on_incoming_close(&mut self, close: Close) -> Result<(), ConnectionStateError> {
+        self.inner
+            .on_incoming_close(endpoint::IncomingChannel(0), close)
+    }
+    pub fn send_open<'a, W>(
+        &'a mut self,
+        writer: &'a mut W,
+    ) -> impl Future<Output = Result<(), ConnectionStateError>> + 'a
+    where
+        W: Sink<Frame> + SendBound + Unpin,
+        ConnectionStateError: From<W::Error>,
+    {
+        self.inner.send_open(writer)
+    }
+    pub fn send_close<'a, W>(
+        &'a mut self,
+        writer: &'a mut W,
+        error: Option<fe2o3_amqp_types::definitions::Error>,
+    ) -> impl Future<Output = Result<(), ConnectionStateError>> + 'a
+    where
+        W: Sink<Frame> + SendBound + Unpin,
+        ConnectionStateError: From<W::Error>,
+    {
+        self.inner.send_close(writer, error)
+    }
+}
+
+/* --------------------------------- session --------------------------------- */
+
+/// Scalar slice of the session state
+#[derive(Debug, Clone, Copy, PartialEq, Eq)]
+pub struct VSessionCounters {
+    pub initial_outgoing_id: u32,
+    pub next_outgoing_id: u32,
+    pub incoming_window: u32,
+    pub outgoing_window: u32,
+    pub next_incoming_id: u32,
+    pub need_flow_count: u32,
+    pub remote_incoming_window: u32,
+    pub remote_outgoing_window: u32,
+    pub buffered: usize,
+}
+
+pub struct VSession(pub Session);
+
+impl VSession {
+    pub fn new(
+        local_state: SessionState,
+        next_outgoing_id: u32,
+        incoming_window: u32,
+        outgoing_window: u32,
+    ) -> Self {
+        let s = crate::session::Builder::new()
+            .next_outgoing_id(next_outgoing_id)
+            .incoming_window(incoming_window)
+            .outgoing_window(outgoing_window)
+            .into_session(OutgoingChannel(0), local_state, Arc::new(OnceLock::new()));
+        Self(s)
+    }
+    pub fn counters(&self) -> VSessionCounters {
+        let s = &self.0;
+        VSessionCounters {
+            initial_outgoing_id: *s.initial_outgoing_id.value(),
+            next_outgoing_id: s.next_outgoing_id,
+            incoming_window: s.incoming_window,
+            outgoing_window: s.outgoing_window,
+            next_incoming_id: s.next_incoming_id,
+            need_flow_count: s.need_flow_count,
+            remote_incoming_window: s.remote_incoming_window,
+            remote_outgoing_window: s.remote_outgoing_window,
+            buffered: s.remote_incoming_window_exhausted_buffer.len(),
+        }
+    }
+    /// overwrite the mutable counters (an arbitrary reachable-or-not pre-state for one step)
+    pub fn set_counters(&mut self, c: VSessionCounters) {
+        let s = &mut self.0;
+        s.next_outgoing_id = c.next_outgoing_id;
+        s.incoming_window = c.incoming_window;
+        s.outgoing_window = c.outgoing_window;
+        s.next_incoming_id = c.next_incoming_id;
+        s.need_flow_count = c.need_flow_count;
+        s.remote_incoming_window = c.remote_incoming_window;
+        s.remote_outgoing_window = c.remote_outgoing_window;
+    }
+    pub fn local_state(&self) -> &SessionState {
+        &self.0.local_state
+    }
+    pub fn set_local_state(&mut self, s: SessionState) {
+        self.0.local_state = s;
+    }
+    /// the transfer frames the call put on the wire: `(delivery_id, is_transfer)` per frame
+    pub fn on_outgoing_transfer(
+        &mut self,
+        input_handle: u32,
+        transfer: Transfer,
+        payload: Payload,
+    ) -> Result<Vec<(Option<u32>, bool)>, ()> {
+        self.0
+            .on_outgoing_transfer(InputHandle(input_handle), transfer, payload)
+            .map(outgoing_item_info)
+            .map_err(|_| ())
+    }
+    /// a flow frame from the peer: the transfer frames released from the buffer
+    pub fn on_incoming_flow(
+        &mut self,
+        flow: Flow,
+    ) -> impl Future<Output = Result<Vec<(Option<u32>, bool)>, ()>> + '_ {
+        async move {
+            self.0
+                .on_incoming_flow(flow)
+                .await
+                .map(outgoing_item_info)
+                .map_err(|_| ())
+        }
+    }
+    pub fn on_incoming_begin(&mut self, channel: u16, begin: Begin) -> Result<(), ()> {
+        self.0
+            .on_incoming_begin(endpoint::IncomingChannel(channel), begin)
+            .map_err(|_| ())
+    }
+    pub fn on_incoming_end(&mut self, channel: u16, end: End) -> Result<(), ()> {
+        self.0
+            .on_incoming_end(endpoint::IncomingChannel(channel), end)
+            .map_err(|_| ())
+    }
+    pub fn on_outgoing_disposition(&mut self, disposition: Disposition) -> Result<(), ()> {
+        self.0
+            .on_outgoing_disposition(disposition)
+            .map(|_| ())
+            .map_err(|_| ())
+    }
+    /// `(next_incoming_id, incoming_window, next_outgoing_id, outgoing_window)` of the session flow
+    pub fn outgoing_session_flow(&self) -> Option<(Option<u32>, u32, u32, u32)> {
+        match self.0.verif_on_outgoing_session_flow().body {
+            SessionFrameBody::Flow(f) => Some((
+                f.next_incoming_id,
+                f.incoming_window,
+                f.next_outgoing_id,
+                f.outgoing_window,
+            )),
+            _ => None,
+        }
+    }
+}
+
+fn frame_transfer_info(f: &SessionFrame) -> (Option<u32>, bool) {
+    match &f.body {
+        SessionFrameBody::Transfer { performative, .. } => (performative.delivery_id, true),
+        _ => (None, false),
+    }
+}
+
+fn outgoing_item_info(item: Option<SessionOutgoingItem>) -> Vec<(Option<u32>, bool)> {
+    match item {
+        None => Vec::new(),
+        Some(SessionOutgoingItem::SingleFrame(f)) => vec![frame_transfer_info(&f)],
+        Some(SessionOutgoingItem::MultipleFrames(fs)) => {
+            fs.iter().map(frame_transfer_info).collect()
+        }
+    }
+}
+
+pub fn num_messages_settled_by_disposition(first: u32, last: Option<u32>) -> u32 {
+    crate::session::verif_num_messages_settled_by_disposition(first, last)
+}
+
+/* ------------------------------ polling helper ----------------------------- */
+
+/// Poll a future once with a no-op waker.
+pub fn poll_once<F: Future + ?Sized>(fut: std::pin::Pin<&mut F>) -> std::task::Poll<F::Output> {
+    let waker = futures_util::task::noop_waker();
+    let mut cx = std::task::Context::from_waker(&waker);
+    fut.poll(&mut cx)
+}
